@@ -34,6 +34,12 @@ func NewMutexMap() *MutexMap {
 // This method will never return nil and Unlock() must be called
 // to release the lock when done.
 func (m *MutexMap) Lock(key interface{}) Unlocker {
+	return m.LockFunc(key, nil)
+}
+
+// LockFunc is like Lock. When the lock is held by somebody else, beforeWait (if not nil) is
+// called before the caller starts to wait for it.
+func (m *MutexMap) LockFunc(key interface{}, beforeWait func()) Unlocker {
 	// read or create entry for this key atomically
 	m.ml.Lock()
 	e, ok := m.ma[key]
@@ -42,8 +48,12 @@ func (m *MutexMap) Lock(key interface{}) Unlocker {
 		m.ma[key] = e
 	}
 	e.cnt++ // ref count
+	contended := e.cnt > 1
 	m.ml.Unlock()
 
+	if contended && beforeWait != nil {
+		beforeWait()
+	}
 	// acquire lock, will block here until e.cnt==1
 	verifhook.GateAcquire(e)
 	e.el.Lock()
